@@ -311,6 +311,9 @@ fn main() {
                 }
             }
         }
+        if !steps.iter().any(|s| s.starts_with("(eval")) && r.chance(9, 10) {
+            steps.push(format!("(eval {})", if reg == "a" { "a" } else { "g" }));
+        }
         emit(format!("(evalsteps (ev {kind} {threads}) (reg {reg}) {} {})", ft_s(&ft), tagged("steps", steps)));
     }
     // 2. budget loops
